@@ -40,6 +40,7 @@ TYPES = {
     "u8": ("u8", ["0u8", "1u8", "2u8", "3u8"]),
     "opt": ("Option<u8>", ["None", "Some(0u8)", "Some(1u8)", "Some(2u8)"]),
     "tup": ("(u8, bool)", ["(0u8, false)", "(1u8, true)", "(1u8, false)", "(2u8, true)"]),
+    "pair": ("(u8, u8)", ["(0u8, 1u8)", "(1u8, 0u8)", "(2u8, 2u8)", "(1u8, 3u8)", "(3u8, 0u8)"]),
     "S": ("S", ["S { a: 0, b: false }", "S { a: 1, b: true }", "S { a: 1, b: false }", "S { a: 2, b: true }"]),
     "E": ("E", ["E::A", "E::B(0)", "E::B(1)", "E::B(2)", "E::C { v: 0 }", "E::C { v: 1 }"]),
     "color": ("Color", ["Red", "Green", "Blue"]),
@@ -55,6 +56,9 @@ ATOMS = {
     "u8": ["0", "1", "3", "1..=2", "2..", "_", "{b}", "{b} @ 1..=2", "0 | 3", "1 | 2 | 3", "eq!(&1)", "ne!(&1)", "eq!(&3)"],
     "opt": ["None", "Some(1)", "Some(_)", "Some(0 | 2)", "Some({b})", "Some({b} @ 1..=2)", "_", "{b}", "None | Some(0)", "eq!(&Some(1))", "ne!(&None)"],
     "tup": ["(1, true)", "(_, false)", "(0..=1, _)", "({b}, _)", "{b}", "_", "(1, _) | (_, true)", "(0 | 2, true | false)"],
+    # or-patterns whose cases bind the same name to different parts of the value: a guard is
+    # evaluated for every case that matches
+    "pair": ["({b}, _) | (_, {b})", "({b}, 0) | (0, {b})", "(1, {b}) | ({b}, 1..=3)", "({b}, _)", "(1, _) | (_, 1)", "_"],
     "S": ["S { a: 1, .. }", "S { a: _, b: true }", "S { .. }", "S { a: 0..=1, b: _ }", "S { a: {b}, b: false }", "_", "eq!(&S { a: 1, b: true })"],
     "E": ["E::A", "E::B(1)", "E::B(_)", "E::C { v: 0..=0 }", "E::A | E::B(2)", "E::C { .. }", "E::B({b})", "_", "ne!(&E::A)"],
     "color": ["Red", "Green | Blue", "Color::Blue", "_"],
@@ -218,13 +222,18 @@ def shapes(tier):
             add([t], [[a]])
     for t, atoms in ATOMS.items():
         for a in atoms:
-            if "{b}" in a and t in ("u8", "opt", "tup", "S", "E", "vec", "slice"):
+            if "{b}" in a and t in ("u8", "opt", "tup", "pair", "S", "E", "vec", "slice"):
                 for g in GUARDS_U8:
                     if t in ("tup",) and a == "{b}":
                         continue
                     if t in ("opt",) and a == "{b}":
                         continue
                     add([t], [[a]], g.replace("{b}", "b0_0"))
+    for a in ATOMS["pair"]:
+        if "{b}" in a:
+            for g in ["*{b} == 3", "*{b} == 0", "*{b} > 1"]:
+                add(["pair"], [[a]], g.replace("{b}", "b0_0"))
+                add(["u8", "pair"], [["_", a]], g.replace("{b}", "b0_1"))
     # 2 arguments: pairs of types x reduced catalogues
     pairs = [("u8", "opt"), ("u8", "str"), ("str", "vec"), ("E", "u8"), ("string", "newtype"), ("slice", "color"), ("u8", "u8")]
     for t0, t1 in pairs:
